@@ -16,6 +16,7 @@ import (
 	"strings"
 	"unsafe"
 
+	"github.com/asaskevich/govalidator"
 	"golang.org/x/tools/go/ssa"
 
 	_ "github.com/invopop/gobl" // registers every regime and addon
@@ -65,6 +66,10 @@ var nativeHandlers = map[string]nativeHandler{
 			return i.opaqueError(err.Error(), iface{})
 		}
 		return iface{}
+	},
+	// third-party string predicates of the validation library, on concrete strings only
+	"github.com/asaskevich/govalidator.IsURL": func(i *interpreter, args []value) value {
+		return govalidator.IsURL(strArg(args[0]))
 	},
 	"github.com/invopop/gobl/tax.ExtensionForKey": func(i *interpreter, args []value) value {
 		return i.importNative(reflect.ValueOf(tax.ExtensionForKey(cbc.Key(strArg(args[0])))))
